@@ -149,8 +149,11 @@ class _FilesystemDataSource(DataSource):
         if not os.path.exists(non_versioned_path):
             result = False
         else:
+            # A link left empty or truncated by an interrupted write names a directory
+            # (an empty path is the current directory) or nothing at all: only a link that
+            # names an object file counts as existing
             path = self._read_non_versioned_link(key)
-            result = path.exists()
+            result = path.is_file()
         log.debug("Exists {}? {}".format(key, result))
         return result
 
